@@ -6,6 +6,7 @@ import (
 	"errors"
 	"fmt"
 	"io"
+	"oras.land/oras-go/v2/internal/descriptor"
 	"sort"
 	"strings"
 
@@ -318,7 +319,17 @@ func modelResolveKey(d ocispec.Descriptor, v int) string {
 	if v == 0 {
 		return descKey(d) + "#"
 	}
+	d.MediaType = variantMediaType(d, v)
 	return descKey(d) + "#" + fmt.Sprint(v)
+}
+
+// variantMediaType: variant 3 of a blob's descriptor names it as application/octet-stream, the
+// way a descriptor obtained from Resolve by digest does - not as the manifest that links to it does.
+func variantMediaType(d ocispec.Descriptor, v int) string {
+	if v == 3 && !descriptor.IsManifest(d) {
+		return "application/octet-stream"
+	}
+	return d.MediaType
 }
 
 // descVariant is the descriptor a tag operation presents.
@@ -336,6 +347,7 @@ func (g *Graph) descVariant(d ocispec.Descriptor, v int) ocispec.Descriptor {
 	}
 	if c, ok := g.varCache[key]; ok {
 		d.Annotations = c
+		d.MediaType = variantMediaType(d, v)
 		return d
 	}
 	ann := map[string]string{}
@@ -345,6 +357,7 @@ func (g *Graph) descVariant(d ocispec.Descriptor, v int) ocispec.Descriptor {
 	ann["variant"] = fmt.Sprint(v)
 	d.Annotations = ann
 	g.varCache[key] = ann
+	d.MediaType = variantMediaType(d, v)
 	return d
 }
 
